@@ -395,7 +395,80 @@ def rule_setters(ctx):
               bad_what="BoardBuilder::castling stores %s" % {k: (f, expr_str(v)) for k, (f, v) in rows.items()})
 
 
-RULES = [("setters", rule_setters), ("letters", rule_letters), ("bijection", rule_bijection), ("fields", rule_fields), ("castle-letters", rule_castle_letters), ("side-ep", rule_side_and_ep),
+def rule_placement_walk(ctx):
+    """piece_placement walks the 64 squares in FEN order: the n-th square visited is (rank 8 - n/8, file n%8); a piece letter
+    sets that bit in its accumulator and advances by one, a digit d advances by d, '/' does not advance."""
+    from .c06 import fold_tree, Undef
+    ix = ctx.ix
+    b = ctx.body(SER + "piece_placement")
+    sym = ctx.sym(b)
+    counter = None
+    # the counter is the variable the mask is computed from
+    stores = [(bi, s) for bi, i, s in b.stmts() if s["lhs"]["p"] == ["*"]]
+    ors = []
+    for bi, s in stores:
+        v = sym.rvalue(s["rv"])
+        tgt = sym.local(s["lhs"]["l"])
+        if v[0] == "bin" and v[1] == "BitOr" and mir.strip_refs(v[2]) == mir.strip_refs(tgt):
+            ors.append((bi, v[3], tgt))
+    ctx.check(len(ors) == 1, "placement:one-or-site", "one site ORs the square's bit into the accumulator the letter selected", b.where(ors[0][0] if ors else 0), bad_what="%d sites OR a mask into an accumulator" % len(ors))
+    if len(ors) != 1:
+        return
+    bi, mask, tgt = ors[0]
+    cons = C.constraints_for(ix, b, sym, bi)
+    ctx.check(any(c[0] == "discr(instruction)" and set(c[1]) == {"Bitboard"} for c in cons) and expr_str(tgt).startswith("(instruction as Bitboard)"), "placement:or-on-piece-letters-only",
+              "the bit is set exactly for the piece-letter instructions, in the accumulator that instruction carries", b.where(bi), bad_what="the OR is not confined to the Bitboard(..) instruction / its own accumulator")
+    names = sorted({x[1] for x in walk(mask) if isinstance(x, tuple) and x[0] == "var"})
+    ctx.check(len(names) == 1, "placement:mask-depends-on-counter-only", "the mask is a function of the square counter only", b.where(bi), bad_what="the mask reads %s" % names)
+    if len(names) != 1:
+        return
+    counter = names[0]
+    bad = []
+    for n in range(64):
+        try:
+            v = fold_tree(ix, mask, {counter: n})
+        except Undef as u:
+            bad.append((n, str(u)))
+            break
+        want = 1 << (8 * (7 - n // 8) + n % 8)
+        if v != want:
+            bad.append((n, "0x%x" % v, "0x%x" % want))
+    ctx.check(not bad, "placement:mask-is-fen-order", "the n-th square of the FEN walk is rank 8 - n/8, file n%8 (a8, b8, ..., h1) for n = 0..63", b.where(bi),
+              bad_what="the placement mask is wrong for walk position(s) %s (position, got, expected)" % bad[:3])
+    # counter updates
+    cl = [l for l in range(len(b.locals)) if b.local_name(l) == counter]
+    upd = {}
+    for (db, di, rv) in b.defs().get(cl[0], []) if cl else []:
+        v = sym.rvalue(rv) if rv.get("k") != "call" else ("call",)
+        cs = {c[0]: set(c[1]) for c in C.constraints_for(ix, b, sym, db)}
+        if v == ("const", 0, "u64") and not b.in_loop(db):
+            upd["init"] = "0"
+        elif v[0] == "bin" and v[2] == ("var", counter) and b.in_loop(db):
+            kind = next((next(iter(vs)) for k, vs in cs.items() if k == "discr(instruction)" and len(vs) == 1), "every-iteration")
+            upd[kind] = "%s %s" % (v[1].replace("WithOverflow", ""), expr_str(v[3]))
+        else:
+            upd["other@%d" % db] = expr_str(v)[:40]
+    want = {"init": "0", "Skip": "Add ((instruction as Skip).0 Sub 1)", "NewRow": "Sub 1", "every-iteration": "Add 1"}
+    ctx.check(upd == want, "placement:counter-steps", "the counter starts at 0, every character advances it by 1, a digit by d - 1 more, '/' by 1 less", b.where(0),
+              bad_what="the square counter is updated as %s (expected %s)" % (upd, want))
+    # the every-iteration step comes after the mask was used, once per character
+    step = [db for (db, di, rv) in b.defs().get(cl[0], []) if rv.get("k") != "call" and sym.rvalue(rv) == ("bin", "Add", ("var", counter), ("const", 1, "u64"))] if cl else []
+    ctx.check(len(step) == 1 and not any(bi in b.reachable_from(step[0], removed={x for x in range(len(b.blocks)) if b.blocks[x].term["k"] == "call" and "Iterator>::next" in (b.blocks[x].term.get("callee") or "")}) for _ in (0,)),
+              "placement:step-after-use", "within one character the bit is set before the counter advances", b.where(step[0] if step else 0), bad_what="the counter advances before the bit of the current character is set")
+    # the digit payload is the digit
+    skips = [(bi2, sym.rvalue(s2["rv"])) for bi2, i2, s2 in b.stmts() if s2["rv"].get("k") == "agg" and s2["rv"].get("variant") == "Skip"]
+    ok = len(skips) == 1
+    if ok:
+        sb, sv = skips[0]
+        txt = expr_str(sv)
+        chars = [c for c in C.constraints_for(ix, b, sym, sb) if c[3][0] == "bin" and c[3][1] == "Le"]
+        lo = any(c[3][2][:2] == ("const", 49) for c in chars)
+        hi = any(c[3][3][:2] == ("const", 56) for c in chars)
+        ok = "parse" in txt and "to_string" in txt and lo and hi and "Sub" not in txt and "Add" not in txt and "Mul" not in txt
+    ctx.check(ok, "placement:digit-is-skip-count", "'1'..='8' -> Skip(the digit's value)", b.where(skips[0][0] if skips else 0), bad_what="the skip count is not the parsed digit for '1'..='8' (%s)" % [expr_str(v)[:60] for _b, v in skips])
+
+
+RULES = [("placement-walk", rule_placement_walk), ("setters", rule_setters), ("letters", rule_letters), ("bijection", rule_bijection), ("fields", rule_fields), ("castle-letters", rule_castle_letters), ("side-ep", rule_side_and_ep),
          ("history", rule_history), ("build", rule_build)]
 
 
